@@ -1,0 +1,61 @@
+//! Verification hooks. Compiled only with `--cfg ipt_verif`; without it none of this exists.
+//!
+//! A test harness can install a [`Hook`] to observe (and perturb the scheduling of) the
+//! threads of [`prayer_times_dt_rng_block`](crate::prayer_times_dt_rng_block), and can override
+//! the detected parallelism. Events are totally ordered by a process-wide lock taken in
+//! [`point`] / [`enter`]; [`enter`] returns a guard so that an operation on shared state
+//! (a channel send, dropping a sender) and its event are one atomic step in that order.
+
+use std::sync::atomic::{AtomicUsize, Ordering};
+use std::sync::{Arc, Mutex, MutexGuard, RwLock};
+
+pub trait Hook: Send + Sync {
+    /// Called before the event is ordered, without any lock held: may sleep, yield or block.
+    fn before(&self, name: &'static str, a: i64, b: i64);
+    /// Called with the ordering lock held: record the event.
+    fn record(&self, name: &'static str, a: i64, b: i64);
+}
+
+static HOOK: RwLock<Option<Arc<dyn Hook>>> = RwLock::new(None);
+static ORDER: Mutex<()> = Mutex::new(());
+static PARALLELISM: AtomicUsize = AtomicUsize::new(0);
+
+/// Installs (or removes) the hook.
+pub fn set_hook(hook: Option<Arc<dyn Hook>>) {
+    *HOOK.write().unwrap_or_else(|e| e.into_inner()) = hook;
+}
+
+/// Overrides the detected parallelism; 0 removes the override.
+pub fn set_parallelism(n: usize) {
+    PARALLELISM.store(n, Ordering::SeqCst);
+}
+
+pub fn parallelism_override(detected: usize) -> usize {
+    match PARALLELISM.load(Ordering::SeqCst) {
+        0 => detected,
+        n => n,
+    }
+}
+
+fn hook() -> Option<Arc<dyn Hook>> {
+    HOOK.read().unwrap_or_else(|e| e.into_inner()).clone()
+}
+
+/// An event that is its own atomic step.
+pub fn point(name: &'static str, a: i64, b: i64) {
+    if let Some(h) = hook() {
+        h.before(name, a, b);
+        let _g = ORDER.lock().unwrap_or_else(|e| e.into_inner());
+        h.record(name, a, b);
+    }
+}
+
+/// An event that is atomic together with what the caller does until it drops the guard.
+pub fn enter(name: &'static str, a: i64, b: i64) -> Option<MutexGuard<'static, ()>> {
+    hook().map(|h| {
+        h.before(name, a, b);
+        let g = ORDER.lock().unwrap_or_else(|e| e.into_inner());
+        h.record(name, a, b);
+        g
+    })
+}
